@@ -97,15 +97,24 @@ def run(tier, seed):
         else:
             lay.append((kind, "\ufeff"[:0] + text.rstrip("\n") + " // \u00e9 last line without newline", incs))
     srcs += lay
+    # spellings of the path itself: the name the caller passes is the name that `__FILE__, origins and error locations carry,
+    # for the file and the string entry points alike (round-3 seeded change: the file reader re-spelled the path)
+    srcs = [x + ("top.sv",) for x in srcs]
+    FILETXT = "module m; initial $display(`__FILE__, `__LINE__); /* c */ endmodule\n"
+    for pth in ("top.sv", "./top.sv", "sub/top.sv", "sub/./top.sv", "sub//top.sv", "./sub/../sub/top.sv", "sub/./deep//top.sv"):
+        srcs.append(("sv", FILETXT, {}, pth))
+        srcs.append(("sv", FILETXT + "@@@ junk\n", {}, pth))
+        srcs.append(("lib", "library l `__FILE__ ;\n", {}, pth))
     pcases = []
-    for i, (kind, text, incs) in enumerate(srcs):
+    for i, (kind, text, incs, toppath) in enumerate(srcs):
         files = dict(incs)
-        files["top.sv"] = text
+        import posixpath
+        files[posixpath.normpath(toppath)] = text
         calls = []
         defs = [{"name": "X", "none": True}] if i % 3 == 0 else []
         for ign in (False, True):
             for inc in (False, True):
-                base = {"path": "top.sv", "defines": defs, "ignore_include": ign, "allow_incomplete": inc, "incdirs": []}
+                base = {"path": toppath, "defines": defs, "ignore_include": ign, "allow_incomplete": inc, "incdirs": []}
                 fns = ["parse_sv", "parse_sv_str", "two_step_sv", "two_step_sv_str"] if kind == "sv" else ["parse_lib", "parse_lib_str", "two_step_lib", "two_step_lib_str"]
                 for fn in fns:
                     cc = dict(base)
